@@ -622,11 +622,11 @@ theorem unalias_err {w : World} {k : Nat} {o : Obj} (h : ObjInv w k o) (ho : w.o
       cases hf : mapFind? (aliasId p1 p2) o.reg with
       | none => rw [hf] at hr; rw [← hr]; exact Or.inr (Or.inr rfl)
       | some l0 =>
-        rw [hf] at hr
-        simp only at hr
         have he : (aliasId p1 p2, l0) ∈ o.reg := (mapFind?_eq_some h.regKeys).1 hf
         obtain ⟨hm2, hn2⟩ := ParamList.find?_some h2
-        obtain ⟨_, htgt⟩ := reg_entry_of_id h hm2 hn2 he
+        obtain ⟨hsrc, htgt, hnm⟩ := reg_entry_of_id h hm2 hn2 he
+        rw [hf] at hr
+        simp only [Option.filter, hsrc, hnm, beq_self_eq_true, Bool.and_self, if_true] at hr
         have hnot : i2 ∉ o.indep := fun hin => (h.indepIff i2 hm2).1 hin ⟨_, he, htgt⟩
         have hhas : hasParameter w.heap o.indep (nameOf w.heap i2) = false := by
           cases hb : hasParameter w.heap o.indep (nameOf w.heap i2)
